@@ -211,6 +211,15 @@ class Ref:
     def __repr__(self): return "&"
 class SliceRef:
     def __init__(self, lst, start, n): self.lst, self.start, self.n = lst, start, n
+class ChoiceV:
+    """a node whose concrete value is one of `options`, selected by the z3 Int `sel` (value k = options[k]).
+    It is concretised lazily, by forking, the first time the executed code looks inside it."""
+    def __init__(self, sel, options): self.sel, self.options = sel, options
+    def __repr__(self): return "Choice(%s)" % self.sel
+_FORCE = [None]
+def force(v):
+    if isinstance(v, ChoiceV): return _FORCE[0](v)
+    return v
 class Opaque:
     def __init__(self, what): self.what = what
     def __repr__(self): return "<%s>" % self.what
@@ -219,11 +228,13 @@ class Unsupported(Exception): pass
 class Infeasible(Exception): pass
 
 def fields_of(v):
+    if isinstance(v, ChoiceV): raise Unsupported("projection into an unforced choice")
     if isinstance(v, (EnumV, StructV, TupleV, BoxV)): return v.fields
     raise Unsupported("fields_of %r" % (v,))
 
 def deep(v):
     """value copy (Copy/Clone semantics); references stay shared"""
+    if isinstance(v, ChoiceV): return ChoiceV(v.sel, [deep(o) for o in v.options])
     if isinstance(v, EnumV): return EnumV(v.ty, v.disc, [deep(x) for x in v.fields])
     if isinstance(v, StructV): return StructV(v.ty, [deep(x) for x in v.fields])
     if isinstance(v, TupleV): return TupleV([deep(x) for x in v.fields])
@@ -233,6 +244,7 @@ def deep(v):
 
 def copy_val(v):
     """`copy` operand: Copy types only; owning containers reached through raw pointers stay shared"""
+    if isinstance(v, ChoiceV): return ChoiceV(v.sel, [copy_val(o) for o in v.options])
     if isinstance(v, EnumV): return EnumV(v.ty, v.disc, [copy_val(x) for x in v.fields])
     if isinstance(v, StructV): return StructV(v.ty, [copy_val(x) for x in v.fields])
     if isinstance(v, TupleV): return TupleV([copy_val(x) for x in v.fields])
@@ -249,8 +261,18 @@ class Exec:
         for n, f in fns.items():
             self.by_last.setdefault(n.split("::")[-1], []).append(f)
         self.solver = z3.Solver()
+        _FORCE[0] = self.force_choice
         self.pc = []; self.decisions = []; self.prefix = []; self.pending = []
         self.steps = 0; self.queries = 0
+    def force_choice(self, ch):
+        k = self.decide([(i, ch.sel == i) for i in range(len(ch.options))])
+        return deep(ch.options[k])
+    def getf(self, ref):
+        """value behind a Ref with a choice node concretised in place"""
+        v = ref.get()
+        if isinstance(v, ChoiceV):
+            v = self.force_choice(v); ref.set(v)
+        return v
     # ---- forking by re-execution
     def decide(self, options):
         """options: list of (label, z3 constraint or None=always)"""
@@ -281,13 +303,13 @@ class Exec:
         p = p.strip()
         if re.match(r"^_\d+$", p): return Ref(fr, p)
         if p.startswith("(*") and p.endswith(")") and self.balanced(p[1:-1]):
-            inner = self.parse_place(p[2:-1], fr).get()
+            inner = self.getf(self.parse_place(p[2:-1], fr))
             if isinstance(inner, Ref): return inner
             if isinstance(inner, BoxV): return Ref(inner.fields, 0)
             raise Unsupported("deref of %r in %s" % (inner, p))
         if p.endswith("]"):
             i = p.rindex("[")
-            base = self.parse_place(p[:i], fr).get(); idx = p[i+1:-1]
+            base = self.getf(self.parse_place(p[:i], fr)); idx = p[i+1:-1]
             if re.match(r"^_\d+$", idx): k = fr[idx]
             else: k = int(idx.split(" ")[0])
             lst = base.items if isinstance(base, VecV) else base
@@ -306,7 +328,7 @@ class Exec:
                     tyann = body[i:].split(": ", 1)[1]
                     if tyann.startswith(("std::ptr::Unique<", "std::ptr::NonNull<", "std::mem::ManuallyDrop<", "std::mem::MaybeDangling<")) or (tyann.startswith("[") and "MaybeDangling" in body[:i]):
                         return self.parse_place(body[:i], fr)
-                    base = self.parse_place(body[:i], fr).get()
+                    base = self.getf(self.parse_place(body[:i], fr))
                     n = int(re.match(r"\.(\d+): ", body[i:]).group(1))
                     return Ref(fields_of(base), n)
         raise Unsupported("place " + p)
@@ -381,7 +403,7 @@ class Exec:
             a = self.operand(m.group(1), fr); return (not a) if isinstance(a, bool) else z3.Not(a)
         m = re.match(r"^discriminant\((.*)\)$", r)
         if m:
-            v = self.parse_place(m.group(1), fr).get()
+            v = self.getf(self.parse_place(m.group(1), fr))
             if not isinstance(v, EnumV): raise Unsupported("discriminant of %r" % (v,))
             return v.disc
         mcl = re.match(r"^\{closure@([^}]*)\} \{ (.*) \}$", r)
@@ -658,6 +680,7 @@ class ClosureRefErr(Exception): pass
 
 def key_repr(v):
     if isinstance(v, Ref): return key_repr(v.get())
+    if isinstance(v, ChoiceV): return key_repr(force(v))
     if isinstance(v, (int, str, bool, float)): return v
     if isinstance(v, EnumV): return ("E", v.ty.split("::")[-1], v.disc, tuple(key_repr(x) for x in v.fields))
     if isinstance(v, (StructV, TupleV)): return ("S", tuple(key_repr(x) for x in v.fields))
